@@ -186,6 +186,7 @@ def check_sorted_before_use(run, f, vec_local, def_block):
     """the Vec collected from a hash iterator must be sorted before any other use"""
     # all uses of the vec, through one level of refs
     sort_blocks = []
+    sort_names = []
     other_blocks = []
     work = [(vec_local, 0)]
     seen = set()
@@ -205,6 +206,7 @@ def check_sorted_before_use(run, f, vec_local, def_block):
                     continue
                 if is_sort_call(o):
                     sort_blocks.append(bi)
+                    sort_names.append(o.get("resolved") or o.get("callee") or "")
                     continue
             if k == "stmt" and o["k"] == "assign" and o["rv"]["k"] == "use" and not o["place"]["p"]:
                 # move into another local
@@ -216,7 +218,13 @@ def check_sorted_before_use(run, f, vec_local, def_block):
     for ob in other_blocks:
         if not any(f.dominates(sb, ob) and sb != ob for sb in sort_blocks):
             return False, "Vec collected from a hash container is used (line %d) on a path that does not pass the sort" % f.blocks[ob]["term"]["span"]["line"]
-    return True, "collected into a Vec that is sorted before any other use"
+    keyed = [n for n in sort_names if re.search(r"sort(_unstable)?_by", n)]
+    if keyed:
+        audited = {e["fn"]: e["reason"] for e in run.table("hash_iter")["injective_sort_keys"]} if hasattr(run, "table") else {}
+        if f.id not in audited:
+            return False, "Vec collected from a hash container is sorted with a key/comparator (`%s`) that is not audited as tie-free: elements that compare equal keep their hash order" % keyed[0].rsplit("::", 1)[-1]
+        return True, "collected into a Vec that is sorted (tie-free key: %s) before any other use" % audited[f.id]
+    return True, "collected into a Vec that is fully sorted before any other use"
 
 
 def det1(run, fns=None, rule="DET1"):
